@@ -16,7 +16,7 @@ from ..case import s2b
 from ..gen import apps as A
 from ..refhttp import response as RESP
 from ..schedworld import run_scenario
-from ..world import observe
+from ..world import observe, adj_default
 from . import c05
 
 PID = "C12"
@@ -100,7 +100,7 @@ def run_case_full(case, source=None, record=False):
         fails.append({"sig": "C12/" + sig, "detail": detail})
 
     adj = case.get("adj") or {}
-    wm = adj.get("outbuf_high_watermark", 16777216)
+    wm = adj.get("outbuf_high_watermark", adj_default("outbuf_high_watermark"))
     disconnects = case.get("reset_after") is not None or case.get("send_fault") is not None
     stalled_for_good = case.get("stop_after") is not None and not case.get("resume", True)
     ch = r.snap["channels"][0] if r.snap["channels"] else None
